@@ -37,10 +37,11 @@ def gen_corr(rng):
     n = rng.choice([0, 0, 1, 2, 3, 5, 9, 15])
     pool = [100.0, 150.0, 200.0, 298.15, 300.0, 400.0, 500.0, 600.0, 700.0, 800.0, 900.0, 1000.0, 1100.0, 1234.5678, 1300.0, 1400.0, 1500.0]
     Ts = sorted(rng.sample(pool, n))
-    Cps = [rng.choice([0.0, round(rng.uniform(-3, 12), 6), 1.23456789012]) for _ in Ts]
+    # (values whose repr is exponent notation WITHOUT a decimal point - 1e-05, 2e-07 - come back from YAML as strings)
+    Cps = [rng.choice([0.0, round(rng.uniform(-3, 12), 6), 1.23456789012, 1e-05, 3e-07]) for _ in Ts]
     j = {'op': 'yaml_roundtrip', 'T_ref': rng.choice([298.15, 298.0, 300.0, 273.15]),
-         'H': rng.choice([None, 0.0, -0.0, round(rng.uniform(-60, 40), 7), -12.345678901234]),
-         'S': rng.choice([None, 0.0, round(rng.uniform(-5, 40), 7)]),
+         'H': rng.choice([None, 0.0, -0.0, round(rng.uniform(-60, 40), 7), -12.345678901234, 1e-05, -4e-06, 1e+16]),
+         'S': rng.choice([None, 0.0, round(rng.uniform(-5, 40), 7), 2e-07, -1e-05]),
          'Ts': Ts, 'Cps': Cps, 'range': None}
     if Ts and min(Ts) <= j['T_ref'] <= max(Ts) and rng.random() < 0.35:
         j['range'] = None          # no declared range: T_ref lies inside the tabulated span
